@@ -440,30 +440,35 @@ Theorem s1_expanded_keeps_everything_old_refuted : exists i m p,
 Proof. exact s1_expanded_old_refuted. Qed.
 Print Assumptions s1_expanded_keeps_everything_old_refuted.
 
-(** FINDING (present): Length() is -1 for the valid non-empty interval {pi, succ(-pi)}, so the
-    guard does not fire for margins in [pi, pi+1/2) and the result loses every point. *)
-Theorem s1_expanded_keeps_everything_refuted : exists i m p,
+(** History 2: before /repo commit e59a11e Length() was -1 for the valid non-empty interval
+    {pi, succ(-pi)}, the guard did not fire for margins in [pi, pi+1/2) and the result lost every
+    point (statement over an explicit copy of the old Length). *)
+Theorem s1_expanded_keeps_everything_oldlength_refuted : exists i m p,
   s1_Interval_IsValid i = true /\ s1_Interval_IsEmpty i = false /\ PrimFloat.leb 0%float m = true /\
   s1_Interval_Contains i p = true /\
-  PrimFloat.ltb (s1_Interval_Length i) 0%float = true /\
-  s1_Interval_IsValid (s1_Interval_Expanded i m) = true /\
-  s1_Interval_Contains (s1_Interval_Expanded i m) p = false.
-Proof. exact s1_expanded_refuted. Qed.
-Print Assumptions s1_expanded_keeps_everything_refuted.
+  PrimFloat.ltb (s1_Interval_Length_old i) 0%float = true /\
+  s1_Interval_IsValid (s1_Interval_Expanded_oldlength i m) = true /\
+  s1_Interval_Contains (s1_Interval_Expanded_oldlength i m) p = false.
+Proof. exact s1_expanded_oldlength_refuted. Qed.
+Print Assumptions s1_expanded_keeps_everything_oldlength_refuted.
 
-(** Outside that case ([len_ok]: Length() >= 0, or margin <= 3) the property holds for every valid
-    interval and every non-NaN margin >= 0 (+Inf included) — closed: Flocq rounding analysis of
-    the 16*dblEpsilon guard and of the two endpoint computations, and exactness of
-    math.Remainder(x, 2*pi) proved from its definition (Proofs/C19_Remainder.v). *)
+Theorem s1_length_nonneg : forall i, valid_s1 i -> s1_Interval_IsEmpty i = false ->
+  PrimFloat.leb 0%float (s1_Interval_Length i) = true.
+Proof. exact length_nonneg. Qed.
+Print Assumptions s1_length_nonneg.
+
+(** With both repairs the property holds for EVERY valid interval and EVERY non-NaN margin >= 0
+    (+Inf included) — closed: Flocq rounding analysis of the 16*dblEpsilon guard, of Length and of
+    the two endpoint computations, and exactness of math.Remainder(x, 2*pi) proved from its
+    definition (Proofs/C19_Remainder.v). *)
 Theorem s1_expanded_keeps_everything : forall i m x,
-  valid_s1 i -> nonnan m -> 0 <= rank m -> len_ok (s1_Interval_Lo i) (s1_Interval_Hi i) m ->
+  valid_s1 i -> nonnan m -> 0 <= rank m ->
   inrange x -> mem_s1 i x -> mem_s1 (s1_Interval_Expanded i m) x.
 Proof. exact s1_expanded_sound. Qed.
 Print Assumptions s1_expanded_keeps_everything.
 
 Theorem s1_expanded_valid : forall i m,
-  valid_s1 i -> nonnan m -> 0 <= rank m -> len_ok (s1_Interval_Lo i) (s1_Interval_Hi i) m ->
-  valid_s1 (s1_Interval_Expanded i m).
+  valid_s1 i -> nonnan m -> 0 <= rank m -> valid_s1 (s1_Interval_Expanded i m).
 Proof. exact C19_Remainder.s1_expanded_valid. Qed.
 Print Assumptions s1_expanded_valid.
 
@@ -475,7 +480,6 @@ Theorem s2rect_expanded_keeps_everything : forall r mg lat x,
   valid_s2rect r -> vlat lat -> inrange x ->
   nonnan (s2_LatLng_Lat mg) -> 0 <= rank (s2_LatLng_Lat mg) ->
   nonnan (s2_LatLng_Lng mg) -> 0 <= rank (s2_LatLng_Lng mg) ->
-  len_ok (s1_Interval_Lo (s2_Rect_Lng r)) (s1_Interval_Hi (s2_Rect_Lng r)) (s2_LatLng_Lng mg) ->
   wf1 (r1_Interval_Expanded (s2_Rect_Lat r) (s2_LatLng_Lat mg)) ->
   mem_s2rect r lat x -> mem_s2rect (s2_Rect_expanded r mg) lat x.
 Proof. exact s2rect_expanded_sound. Qed.
